@@ -159,6 +159,8 @@ def run(ctx):
         coq_shards=[dict(shard=i["shard"], n=i["n"], rc=i["rc"], wall_s=round(i["wall"], 1)) for i in infos],
     ), assumptions=[
         "the abstraction of Go values/types to GoVal.gv / Registry.ty terms and the canary labels are computed by the harness with reflect and strings only",
+        "methods are invisible to the model (the specification: json.Marshaler / TextMarshaler / Stringer / error implementers are "
+        "scrubbed like any struct); exercised on all three surfaces by the hand-declared types of harness/cmd/c17/methods.go",
         "values are trees: no sharing/cycles; recursive types are not generated (reflect.StructOf cannot build them)",
         "ordinary unexported fields and anything below a Go array are outside the property (documented exclusions of clone.Secure); "
         "reflect.StructOf builds exported, non-embedded fields only: unexported fields, embedded structs / *structs of unexported "
